@@ -17,6 +17,15 @@ CHECKS = {
             "trusts python json, the vnode framing, and the repo's JsonRenderer as the observation channel; known findings "
             "are matched per cell by (kind, value class, observed class, tier)",
             "DESIGN.md §4 C07"),
+    "C02": ("exploration",
+            "runtime monitoring: three-valued reference predicate oracle + cross-layout relational oracle over generated histories",
+            "Generated typed schemas, small-domain events and ~45 predicates per history (leaves of every field-kind/operator/literal-kind "
+            "class, AND/OR/NOT trees, FOR, SINCE..USING) are asked of the real engine in memory / mixed / L0 / compacted x2 / restart / "
+            "WAL-recovered layouts; returned k-sets are compared with a reference evaluation and across layouts. Half of the queries "
+            "avoid every feature family named by an open finding so that unlisted discrepancies stay detectable.",
+            "reference semantics taken from docs/src/commands/query.md; comparisons with null/absent fields and string ordering are "
+            "unspecified and only checked for layout invariance; known findings match on the query's first feature family",
+            "DESIGN.md §4 C02"),
 }
 
 PENDING_REASON = "check not built yet in this session (see DESIGN.md §10 for the order); no claim is made"
